@@ -396,7 +396,19 @@ def _read_request_shape(fn: ast.FunctionDef) -> dict:
                 else:
                     raise Unrecognised("_read_request: handler around the batch read does not raise RpcError")
     pos = lambda n: (n.lineno, n.col_offset)  # noqa: E731
+    # pointer resolution: `batch` is re-bound by resolve_external_location(...) and resolve_shm_batch(...); the schema
+    # must be recorded from the *resolved* batch, i.e. after both calls
+    resolvers = [n for n in ast.walk(fn) if isinstance(n, ast.Call) and _callee(n) in ("resolve_external_location", "resolve_shm_batch")]
+    if {_callee(n) for n in resolvers} != {"resolve_external_location", "resolve_shm_batch"} or len(resolvers) != 2:
+        raise Unrecognised("_read_request: pointer resolution calls")
+    for n in ast.walk(fn):
+        if isinstance(n, ast.Assign) and n.value in resolvers:
+            tgt = n.targets[0]
+            if not (isinstance(tgt, ast.Tuple) and isinstance(tgt.elts[0], ast.Name) and tgt.elts[0].id == "batch"):
+                raise Unrecognised("_read_request: resolver result is not bound to `batch`")
+    records_resolved = record is not None and all(pos(r) < pos(record) for r in resolvers)
     return {
+        "recordsResolved": records_resolved,
         "validationWrap": vwrap,
         "rowGuard": row_guard is not None and pos(row_guard) < pos(aspy),
         "recordsSchema": record is not None and pos(record) < pos(aspy) and (row_guard is None or pos(row_guard) < pos(record)),
@@ -580,6 +592,9 @@ def unexpectedExempt : List String := [{', '.join('"' + e + '"' for e in x['exem
 def readRowGuard : Bool := {b(x['read']['rowGuard'])}
 /-- `_current_request_param_schema.set(batch.schema)` happens after the row guard and before `as_py()` -/
 def readRecordsSchema : Bool := {b(x['read']['recordsSchema'])}
+/-- … and after `batch` was re-bound by `resolve_external_location(…)` and `resolve_shm_batch(…)`: it is the schema of the
+*resolved* request batch (the one the kwargs are read from), not of a zero-row pointer batch -/
+def readRecordsResolved : Bool := {b(x['read']['recordsResolved'])}
 /-- classes of the `except` around `as_py()` (the handler raises `RpcError`); `[]` = no handler -/
 def readWrap : List HCls := [{', '.join('.' + n for n in x['read']['wrap'])}]
 
